@@ -38,7 +38,7 @@ TEXT = ("TLC checks the clone/drop/take protocol of SharedFd step by step (singl
         "the real Proactor, with the close counter, the closer's wake-ups, the strong count at every hook and the "
         "process's descriptor table compared with the model and the property's predicates evaluated on the real "
         "observation.")
-NOTE = ("Bounds: <= 3 other holders (handles + operations) and one closer, programs <= 8 methods; sync schedules: all "
+NOTE = ("Bounds: <= 3 (thorough: 4) other holders (handles + operations) and one closer, programs <= 8 methods; sync schedules: all "
         "interleavings of 2 holders + closer (quick) / a seeded sample of the 3-holder interleavings (thorough); producer "
         "programs: one operation, <= 2 polls, <= 2 connections. Drop's two loads (strong_count, waits) are one model step "
         "(the add-only hooks cannot separate them). The kernel is eager in the producer programs (completion caused by the "
@@ -139,10 +139,14 @@ def _classify(run, summary, details, what):
     return drift
 
 
-def _subset(src, dst, k, rnd):
+def _subset(src, dst, k, rnd, keep=None):
+    """seeded sample of k lines; lines for which keep(line) holds are all kept"""
     lines = open(src).read().splitlines()
-    if len(lines) > k:
-        lines = rnd.sample(lines, k)
+    kept = [l for l in lines if keep and keep(l)]
+    rest = [l for l in lines if not (keep and keep(l))]
+    if len(rest) > k:
+        rest = rnd.sample(rest, k)
+    lines = kept + rest
     with open(dst, "w") as f:
         f.write("\n".join(lines) + "\n")
     return len(lines)
@@ -164,7 +168,8 @@ def run(run, tier, replay):
         with cf.ThreadPoolExecutor(max_workers=4) as pool:
             mc = [pool.submit(_run_mc, j) for j in _mc_jobs(tier)]
             gens = {
-                "unsync": pool.submit(_gen, "Gen_SharedFd", "Gen_SharedFd.cfg", p_unsync),
+                "unsync": pool.submit(_gen, "Gen_SharedFd",
+                                      "Gen_SharedFd.cfg" if tier == "quick" else "Gen_SharedFd_thorough.cfg", p_unsync),
                 "file": pool.submit(_gen, "Gen_SharedFd", "Gen_SharedFd_file.cfg", p_file),
                 "sync": pool.submit(_gen, "Gen_SharedFdSync",
                                     "Gen_SharedFdSync.cfg" if tier == "quick" else "Gen_SharedFdSync_3.cfg", p_sync),
@@ -195,9 +200,13 @@ def run(run, tier, replay):
             counts["sync_replayed"] = _subset(p_sync, p2, 6000, rnd)
             p_sync = p2
             p3 = os.path.join(tmp, "prod_s.jsonl")
-            counts["prod_replayed"] = _subset(p_prod, p3, 20000, rnd)
+            # every single-shot program, a seeded sample of the (many) multishot programs
+            counts["prod_replayed"] = _subset(p_prod, p3, 15000, rnd, keep=lambda l: '"class": "multi"' not in l)
             p_prod = p3
         run.note("exhaustive_programs", tier == "quick")
+        for k in ("sync_replayed", "prod_replayed"):
+            if k in counts:
+                run.note(k, counts[k])
 
         # ------------------------------------------------------------------ 2. harness
         vlib.cargo_build("hfd", ["fd_replay", "fd_prod"])
